@@ -637,11 +637,16 @@ SU_vector& SU_vector::operator=(const SU_vector& other){
     if(isinit_d) //can't resize
       throw std::runtime_error("Non-matching dimensions in assignment to SU_vector with external storage");
     //can resize
-    if(isinit)
+    if(isinit){
       deallocate_mem();
+      //remain a valid, empty vector in case obtaining new storage fails
+      isinit=false;
+      dim=0;
+      size=0;
+    }
+    alloc_aligned(other.dim,other.size,components,ptr_offset);
     dim=other.dim;
     size=other.size;
-    alloc_aligned(dim,size,components,ptr_offset);
     isinit=true;
   }
 
